@@ -17,32 +17,46 @@ def rel(chk, oracle, what, lhs, rhs_list, sample):
 
 
 def search(chk, r, n, max_pto):
-    for i in range(n):
+    # deterministic cases first: the partitions must also hold with target-mass corrections switched
+    # on (every piece is corrected the same way) and for a pure-Z beam at low Q2 (couplings ~ 1e-8)
+    forced = [dict(which="ffns", process="EM", kind="F2", pto=1, proj="electron", nfff=3, fns="FFNS", tmc=2, p=[dict(x=0.1, Q2=20.0), dict(x=0.3, Q2=8.0)]),
+              dict(which="pos", process="NC", kind="F2", pto=1, proj="neutrino", fns="ZM-VFNS", nfff=4, fl="total", tmc=0, p=[dict(x=0.1, Q2=2.0), dict(x=0.1, Q2=2.6)]),
+              dict(which="ffns", process="NC", kind="FL", pto=1, proj="positron", nfff=3, fns="FFNS", tmc=2, p=[dict(x=0.3, Q2=8.0)])]
+    for i in range(n + len(forced)):
         process = r.choice(["EM", "NC", "CC"])
         kinds = cards.UNPOL if process == "CC" else r.choice([cards.UNPOL, ["g1"]])
         kind = r.choice(kinds)
         pto = r.choice(list(range(0, max_pto + 1)))
-        proj = r.choice(list(cards.PROJECTILES)) if process == "CC" else r.choice(["electron", "positron"])
+        proj = r.choice(list(cards.PROJECTILES)) if process in ("CC", "NC") else r.choice(["electron", "positron"])
         target = r.choice(["proton", "isoscalar", "iron"])
-        kw = dict(prDIS=process, ProjectileDIS=proj, TargetDIS=target, PolarizationDIS=float(r.choice([0.0, 0.4])))
         p = pts(r)
         which = r.choice(["ffns", "ffns", "zm", "fonll", "pos"])
-        base = dict(kind=kind, process=process, projectile=proj, pto=pto, target=target, pts=p)
+        tmc = r.choice([0, 0, 0, 2, 1]) if pto <= 1 and kind != "g1" else 0
+        f_ = forced[i] if i < len(forced) else {}
+        if f_:
+            which, process, kind, pto, proj, tmc, p, target = f_["which"], f_["process"], f_["kind"], f_["pto"], f_["proj"], f_["tmc"], f_["p"], "proton"
+        kw = dict(prDIS=process, ProjectileDIS=proj, TargetDIS=target, PolarizationDIS=float(r.choice([0.0, 0.4])))
+        if tmc:
+            kw["interpolation_xgrid"] = cards.default_grid(8, 0.02)
+            p = [pt for pt in p if pt["x"] >= 0.05] or [dict(x=0.1, Q2=20.0)]
+        base = dict(kind=kind, process=process, projectile=proj, pto=pto, target=target, pts=p, TMC=tmc)
         try:
             if which == "ffns":
                 nfff = r.choice([3, 3, 3, 4, 5])
                 fns = r.choice(["FFNS", "FFNS", "FFN0"]) if not (process != "CC" and kind in ("F2", "FL")) else "FFNS"
+                if f_:
+                    nfff, fns = f_["nfff"], f_["fns"]
                 names = [f"{kind}_{h}" for h in ["total", "light", "charm", "bottom", "top"]]
-                out = realrun.run(cards.theory(PTO=pto, FNS=fns, NfFF=nfff), cards.obs({n_: p for n_ in names}, **kw))
+                out = realrun.run(cards.theory(PTO=pto, FNS=fns, NfFF=nfff, TMC=tmc), cards.obs({n_: p for n_ in names}, **kw))
                 # sharp form valid for every NfFF (theorem total_decomposition): the massive parts only
-                outm = realrun.run(cards.theory(PTO=pto, FNS=fns, NfFF=nfff, FONLLParts="massive"), cards.obs({n_: p for n_ in names[2:]}, **kw))
+                outm = realrun.run(cards.theory(PTO=pto, FNS=fns, NfFF=nfff, FONLLParts="massive", TMC=tmc), cards.obs({n_: p for n_ in names[2:]}, **kw))
                 for j in range(len(p)):
                     rel(chk, "ffns_total_vs_light_plus_massive", f"{fns} NfFF={nfff}: total != light + sum_h massive part of F_h", out[names[0]][j], [out[names[1]][j]] + [outm[n_][j] for n_ in names[2:]], dict(base, FNS=fns, NfFF=nfff, point=j))
                 for j in range(len(p)):
                     rel(chk, "ffns_total_vs_parts", f"{fns} NfFF={nfff}: total != light+charm+bottom+top" + (" (heavylight double counting, NfFF>=4)" if nfff >= 4 else ""), out[names[0]][j], [out[n_][j] for n_ in names[1:]], dict(base, FNS=fns, NfFF=nfff, point=j))
             elif which == "zm":
                 names = [f"{kind}_total", f"{kind}_light"]
-                out = realrun.run(cards.theory(PTO=pto, FNS="ZM-VFNS"), cards.obs({n_: p for n_ in names}, **kw))
+                out = realrun.run(cards.theory(PTO=pto, FNS="ZM-VFNS", TMC=tmc), cards.obs({n_: p for n_ in names}, **kw))
                 for j in range(len(p)):
                     rel(chk, "zm_total_vs_light", "ZM-VFNS: total != light", out[names[0]][j], [out[names[1]][j]], dict(base, point=j))
             elif which == "fonll":
@@ -52,7 +66,7 @@ def search(chk, r, n, max_pto):
                 name = f"{kind}_{fl}"
                 outs = {}
                 for parts in ("full", "massless", "massive"):
-                    outs[parts] = realrun.run(cards.theory(PTO=pto, FNS=fns, NfFF=nfff, FONLLParts=parts), cards.obs({name: p}, **kw))
+                    outs[parts] = realrun.run(cards.theory(PTO=pto, FNS=fns, NfFF=nfff, FONLLParts=parts, TMC=tmc), cards.obs({name: p}, **kw))
                 for j in range(len(p)):
                     rel(chk, "fonll_full_vs_parts", f"{fns}: full != massless+massive", outs["full"][name][j], [outs["massless"][name][j], outs["massive"][name][j]], dict(base, FNS=fns, NfFF=nfff, obs=name, point=j))
             else:
@@ -60,8 +74,10 @@ def search(chk, r, n, max_pto):
                     continue
                 fns, nfff = r.choice([("ZM-VFNS", 4), ("FFNS", 3), ("FFNS", 4)])
                 fl = r.choice(["total", "light", "charm"])
+                if f_:
+                    fns, nfff, fl = f_["fns"], f_["nfff"], f_["fl"]
                 name = f"{kind}_{fl}"
-                th = cards.theory(PTO=pto, FNS=fns, NfFF=nfff)
+                th = cards.theory(PTO=pto, FNS=fns, NfFF=nfff, TMC=tmc)
                 allq = realrun.run(th, cards.obs({name: p}, NCPositivityCharge=r.choice([None, "all"]), **kw))
                 parts = [realrun.run(th, cards.obs({name: p}, NCPositivityCharge=qn, **kw)) for qn in cards.QUARKS]
                 for j in range(len(p)):
